@@ -23,6 +23,7 @@ def soloPc (p : PC) (empty : Bool) (nw : Nat) : Nat :=
   | .write, false => 8 - nw
   | .release, true => 2
   | .release, false => 5
+  | .releaseX, _ => 1
   | .crash, _ => 0
 
 /-- a bound on the number of lines thread `t` executes before all its calls have returned, if it runs
@@ -80,12 +81,25 @@ theorem solo_step {s : St} {t : Tid} (h : Inv s) (hd : ¬ isDone s t) :
     next y hh =>
       rw [hh] at hx; cases hx
       split
+      next hdead =>
+        refine ⟨_, rfl, ?_⟩
+        cases hq : s.queue <;> simp [soloFuel, soloPc, hpc, hq] <;> omega
+      next hdead =>
+      split
       next hlt' =>
         refine ⟨_, rfl, ?_⟩
         cases hq : s.queue <;> simp [soloFuel, soloPc, hpc, hq] <;> omega
       next hlt' =>
         refine ⟨_, rfl, ?_⟩
         cases hq : s.queue <;> simp [soloFuel, soloPc, hpc, hq] <;> omega
+  next hpc =>
+    split
+    next hl =>
+      refine ⟨_, rfl, ?_⟩
+      cases hq : s.queue <;> simp [soloFuel, soloPc, hpc, hq]
+    next hl =>
+      have := (h.holder_of_cs (t := t) (by rw [hpc]; rfl)).2
+      rw [hl] at this; cases this
   next hpc =>
     split
     next hl =>
@@ -125,6 +139,50 @@ theorem solo_returns_aux (t : Tid) : ∀ (k : Nat) (s : St), Inv s → soloFuel 
     · obtain ⟨s', hs, hlt⟩ := solo_step h hd
       simp only [runSolo, hs]
       exact ih s' (h.step hs) (by omega)
+
+theorem not_blocked_step {s s' : St} {t : Tid} (hN : Nest s) (hb : ¬ blocked s t) (hs : step s t = some s') :
+    ¬ blocked s' t := by
+  obtain ⟨hw, _, _, _, hoth, _⟩ := step_frame hs
+  rintro ⟨c, hc, hcd⟩
+  rw [hw] at hc
+  have hct : c ≠ t := Nat.ne_of_gt (hN.wait_lt t c hc).1
+  refine hb ⟨c, hc, fun hd => hcd ?_⟩
+  unfold isDone at hd ⊢
+  rw [(hoth c hct).1, (hoth c hct).2]; exact hd
+
+/-- the undisturbed run of a thread that is not suspended is a real execution -/
+theorem runSolo_reachable {n : Nat} {prog : Tid → List Msg} (t : Tid) :
+    ∀ (k : Nat) (s : St), Reachable n prog s → ¬ blocked s t → Reachable n prog (runSolo s t k) := by
+  intro k
+  induction k with
+  | zero => intro s h _; exact h
+  | succ k ih =>
+    intro s h hb
+    simp only [runSolo]
+    split
+    next s' hs => exact ih s' (.step t h hb hs) (not_blocked_step (reachable_inv h).2 hb hs)
+    · exact h
+
+/-! ### a sender that does not obtain the lock is gone after three of its own lines -/
+
+theorem line_append {s s' : St} {t : Tid} {m : Msg} (hpc : s.pc t = .append m) (hs : step s t = some s') :
+    s'.pc t = .check := by
+  unfold SendQ.step at hs; simp only [hpc] at hs; cases hs; simp
+
+theorem line_check {s s' : St} {t : Tid} (hpc : s.pc t = .check) (hs : step s t = some s') :
+    s'.pc t = .idle ∨ s'.pc t = .tryLock := by
+  unfold SendQ.step at hs; simp only [hpc] at hs
+  split at hs <;> cases hs <;> simp
+
+theorem line_tryLock {s s' : St} {t : Tid} (hpc : s.pc t = .tryLock) (hs : step s t = some s') :
+    (s'.pc t = .idle ∧ s.lock = true) ∨ (s'.pc t = .recheck ∧ s'.lock = true ∧ s'.holder = some t) := by
+  unfold SendQ.step at hs; simp only [hpc] at hs
+  split at hs
+  next hl => cases hs; exact Or.inl ⟨by simp, hl⟩
+  next hl => cases hs; exact Or.inr ⟨by simp, rfl, rfl⟩
+
+theorem others_do_not_move {s s' : St} {t u : Tid} (hu : u ≠ t) (hs : step s u = some s') : s'.pc t = s.pc t :=
+  ((step_frame hs).2.2.2.2.1 t (fun e => hu e.symm)).1
 
 /-- a freshly started nested activation needs at most 9 lines per queued item plus 25 -/
 theorem soloFuel_reenter {s : St} (hN : Nest s) (p : Tid) (m : Msg) :
